@@ -40,7 +40,18 @@ type server struct {
 	tokU       int
 	tokT       int
 	onProbe    func()
-	lastSentU  []byte
+	// isProbe tells health probes from queries by their question (nil: by the
+	// default probe domain); seen collects the probe requests received.
+	isProbe   func(q dns.Question) bool
+	seen      []*dns.Msg
+	lastSentU []byte
+	// rawU / rawT: the octets sent when the kind is "raw" (TCP: after a length
+	// prefix announcing exactly them).
+	rawU, rawT []byte
+	// rawFrag > 1: the TCP octets are written in that many pieces (the length
+	// prefix first, on its own), a millisecond apart: a message that arrives in
+	// several segments.
+	rawFrag int
 	wg         sync.WaitGroup
 }
 
@@ -149,6 +160,43 @@ func (s *server) set(ukind, tkind string, tokU, tokT int) {
 	}
 }
 
+// setRaw scripts the server with literal octets for the kinds "raw".
+func (s *server) setRaw(ukind, tkind string, rawU, rawT []byte, frag int) {
+	s.mu.Lock()
+	s.rawU, s.rawT, s.rawFrag = rawU, rawT, frag
+	s.mu.Unlock()
+	s.set(ukind, tkind, 0, 0)
+}
+
+// probe reports whether req is a health probe, and notes it.
+func (s *server) probe(req *dns.Msg) bool {
+	s.mu.Lock()
+	f, onProbe := s.isProbe, s.onProbe
+	s.mu.Unlock()
+	is := isProbeName(req.Question[0].Name)
+	if f != nil {
+		is = f(req.Question[0])
+	}
+	if is {
+		s.mu.Lock()
+		s.seen = append(s.seen, req)
+		s.mu.Unlock()
+		if onProbe != nil {
+			onProbe()
+		}
+	}
+
+	return is
+}
+
+func (s *server) takeSeen() (l []*dns.Msg) {
+	s.mu.Lock()
+	defer s.mu.Unlock()
+	l, s.seen = s.seen, nil
+
+	return l
+}
+
 func (s *server) serveUDP(c *net.UDPConn) {
 	defer s.wg.Done()
 	buf := make([]byte, 4096)
@@ -162,10 +210,13 @@ func (s *server) serveUDP(c *net.UDPConn) {
 			continue
 		}
 		s.mu.Lock()
-		kind, tok, onProbe := s.ukind, s.tokU, s.onProbe
+		kind, tok, raw := s.ukind, s.tokU, s.rawU
 		s.mu.Unlock()
-		if isProbeName(req.Question[0].Name) && onProbe != nil {
-			onProbe()
+		s.probe(req)
+		if kind == "raw" {
+			_, _ = c.WriteToUDP(raw, from)
+
+			continue
 		}
 		if b := buildReply(req, kind, tok); b != nil {
 			s.mu.Lock()
@@ -204,15 +255,42 @@ func (s *server) serveTCP(l *net.TCPListener) {
 					return
 				}
 				s.mu.Lock()
-				kind, tok, onProbe := s.tkind, s.tokT, s.onProbe
+				kind, tok, raw, frag := s.tkind, s.tokT, s.rawT, s.rawFrag
 				closeNow := s.closeFirst
 				s.closeFirst = false
 				s.mu.Unlock()
 				if closeNow {
 					return
 				}
-				if isProbeName(req.Question[0].Name) && onProbe != nil {
-					onProbe()
+				s.probe(req)
+				if kind == "raw" {
+					out := append(binary.BigEndian.AppendUint16(nil, uint16(len(raw))), raw...)
+					if frag > 1 {
+						if tc, ok := c.(*net.TCPConn); ok {
+							_ = tc.SetNoDelay(true)
+						}
+						cuts := []int{2}
+						for i := 1; i < frag; i++ {
+							cuts = append(cuts, 2+len(raw)*i/frag)
+						}
+						prev := 0
+						for _, at := range append(cuts, len(out)) {
+							if at > prev {
+								if _, err := c.Write(out[prev:at]); err != nil {
+									return
+								}
+								time.Sleep(time.Millisecond)
+							}
+							prev = at
+						}
+
+						continue
+					}
+					if _, err := c.Write(out); err != nil {
+						return
+					}
+
+					continue
 				}
 				if b, _ := kindParts(kind); b == "eof" {
 					return
@@ -311,6 +389,9 @@ func buildReply(req *dns.Msg, kind string, tok int) []byte {
 		resp.Question[0].Name = strings.ToUpper(resp.Question[0].Name)
 	case "ty":
 		resp.Question[0].Qtype = dns.TypeAAAA
+		if req.Question[0].Qtype == dns.TypeAAAA {
+			resp.Question[0].Qtype = dns.TypeA
+		}
 	case "q2":
 		resp.Question = append(resp.Question, resp.Question[0])
 	case "q0":
@@ -329,6 +410,8 @@ func buildReply(req *dns.Msg, kind string, tok int) []byte {
 				cut = 17
 			}
 		}
+		// always inside the question: for the shortest names before octet 17
+		cut = min(cut, len(b)-3)
 		if len(b) > cut {
 			b = b[:cut]
 		}
@@ -442,7 +525,7 @@ func plainCampaign(o *hlib.Opts, r *hlib.Result, m *hlib.Model) {
 		ukindsFull...), ukindsCore...)
 	tkinds := append(append([]string{"ok", "ok", "ok", "ok", "cs", "ok+tc", "id", "nm", "ty", "q2", "q0", "net", "net", "eof", "eof", "bad", "pfx"},
 		tkindsFull...), tkindsCore...)
-	names := []string{"ab.", "abcdef.example.", "x.y.z.example.org."}
+	names := []string{"ab.", "abcdef.example.", "x.y.z.example.org.", ".", "a."}
 	n := 3200
 	drops := 6
 	if o.Thorough() {
@@ -728,6 +811,8 @@ func newSockWorld(s *sched, pool []*server) *sockWorld {
 		idx := i
 		srv.mu.Lock()
 		srv.onProbe = func() { w.add(call{idx: idx, probe: true}) }
+		srv.isProbe = s.isProbeQ
+		srv.seen = nil
 		srv.mu.Unlock()
 		w.mains = append(w.mains, srv)
 		nw := netw[s.netOf(false, i)]
@@ -739,6 +824,8 @@ func newSockWorld(s *sched, pool []*server) *sockWorld {
 		idx := i
 		srv.mu.Lock()
 		srv.onProbe = func() { w.add(call{fb: true, idx: idx, probe: true}) }
+		srv.isProbe = s.isProbeQ
+		srv.seen = nil
 		srv.mu.Unlock()
 		w.fbs = append(w.fbs, srv)
 		nw := netw[s.netOf(true, i)]
@@ -862,13 +949,26 @@ func flow(nw, beh string) (res, over string) {
 }
 
 func (w *sockWorld) classify(fb bool, idx int, beh string) string {
-	res, over := flow(w.s.netOf(fb, idx), beh)
-	if res == "reply" && kindHas(over, "na") {
-		// no token to recognise the reply by
-		return "?"
-	}
+	res, _ := flow(w.s.netOf(fb, idx), beh)
 
 	return res
+}
+
+// wantTok: a reply without answer records carries no token (0).
+func (w *sockWorld) wantTok(fb bool, idx int, beh string, tok int) int {
+	if _, over := flow(w.s.netOf(fb, idx), beh); kindHas(over, "na") {
+		return 0
+	}
+
+	return tok
+}
+
+func (w *sockWorld) takeProbes() (l []*dns.Msg) {
+	for _, srv := range w.mains {
+		l = append(l, srv.takeSeen()...)
+	}
+
+	return l
 }
 
 // probeOK: the probe gets a matching NOERROR reply on the transport that
@@ -895,11 +995,13 @@ var (
 	sockQ = []string{"ok/ok", "ok/net", "cs/ok", "tc/ok", "tc/tc", "net/net", "net/net", "net/ok", "tc/net", "id/ok", "id/id",
 		"nm/nm", "ty/ty", "q2/q2", "q0/q0", "bad/bad", "tc/eof", "id/net", "bad/ok", "sf/sf", "pfx/pfx", "pfx/net",
 		"id+tc/ok", "id+tc/net", "id+tc/id+tc", "nm+tc/nm", "ty+tc+na/ty", "q2+tc/q2+tc", "q0+tc+rf/net", "ok+tc/id", "cs+tc/cs",
-		"id+sf/id+sf", "nm+na/nm+na", "id+tc+na/net", "ok+nx+aa/ok", "net/id+tc", "ok/nm+tc", "dr/ok"}
+		"id+sf/id+sf", "nm+na/nm+na", "id+tc+na/net", "ok+nx+aa/ok", "net/id+tc", "ok/nm+tc",
+		"ok+na/ok+na", "ok+na/net", "cs+na/ok+na", "ok+na+rf/ok+na", "ok+tc+na/ok+na", "dr/ok"}
 	sockFQ = []string{"ok/ok", "ok/ok", "tc/ok", "net/net", "id/id", "nm/ok", "tc/eof", "id/net",
-		"id+tc/net", "nm+tc/nm+tc", "ok+tc/ok", "ty+tc/ok", "net/id+tc", "dr/dr"}
+		"id+tc/net", "nm+tc/nm+tc", "ok+tc/ok", "ty+tc/ok", "net/id+tc", "ok+na/ok+na", "dr/dr"}
 	sockP = []string{"ok/ok", "ok/ok", "sf/sf", "sf/sf", "id/id", "tc/ok", "tc/sf", "id/ok", "cs/ok", "bad/bad", "tc/eof",
-		"id+tc/id", "nm+tc/id", "ty+tc+na/bad", "id+tc/id+tc", "q2+tc/ok", "ok+tc/ok+sf", "ok+tc/ok", "ok+nx/ok", "ok/nm+tc", "dr/dr"}
+		"id+tc/id", "nm+tc/id", "ty+tc+na/bad", "id+tc/id+tc", "q2+tc/ok", "ok+tc/ok+sf", "ok+tc/ok", "ok+nx/ok", "ok/nm+tc",
+		"ok+na/ok+na", "ok+na/ok+na", "ok+na/ok", "ok+tc+na/ok+na", "ok+na+nx/ok+na", "dr/dr"}
 	sockNets = []string{"any", "any", "any", "udp", "udp", "tcp"}
 )
 
@@ -949,6 +1051,8 @@ func socketCampaign(o *hlib.Opts, r *hlib.Result, m *hlib.Model) {
 			}
 		}
 		s.RandTmpl = rng.IntN(3) == 0
+		r.Count("socket.qname=" + map[bool]string{true: "root", false: "other"}[s.qname() == "."])
+		r.Count("socket.tmpl=" + s.Tmpl)
 		for u := 0; u < s.NMain; u++ {
 			r.Count("socket.main_net=" + s.netOf(false, u))
 		}
